@@ -4,6 +4,7 @@ import (
 	"cmp"
 	"encoding/json"
 	"errors"
+	"fmt"
 	"reflect"
 	"sort"
 	"strings"
@@ -92,7 +93,15 @@ func unixMilliToTime(unixMilli int64) time.Time {
 	return time.Unix(0, unixMilli*int64(time.Millisecond))
 }
 
-func ParseCron(cronExp string) (cron.Schedule, error) {
+func ParseCron(cronExp string) (schedule cron.Schedule, err error) {
+	// the parser panics on some malformed expressions, such as a time zone
+	// prefix that is not followed by a spec ("TZ=UTC"), report an error instead
+	defer func() {
+		if r := recover(); r != nil {
+			schedule, err = nil, fmt.Errorf("invalid cron expression %q: %v", cronExp, r)
+		}
+	}()
+
 	return cron.NewParser(cron.SecondOptional | cron.Minute | cron.Hour | cron.Dom | cron.Month | cron.Dow | cron.Descriptor).Parse(cronExp)
 }
 
